@@ -17,4 +17,7 @@ import Crd.Props.IO
 #print axioms Crd.Props.C10.mapM_roundtrip
 #print axioms Crd.Props.C10.decoded_all_valid
 #print axioms Crd.Props.C10.write_conv_output_readable
+#print axioms Crd.Props.C10.override_idem
+#print axioms Crd.Props.C10.prepare_idem
+#print axioms Crd.Props.C10.write_conv_then_write
 #print axioms Crd.Props.IO.io_sites_accounted
